@@ -2,12 +2,13 @@
 //! ArrayBuf / FixedHeapBuf / GrowingHeapBuf, and the shared sender/receiver flavour.
 use crate::core::*;
 use futures_core::future::FusedFuture;
+use futures_core::stream::{FusedStream, Stream};
 use futures_intrusive::buffer::{ArrayBuf, FixedHeapBuf, GrowingHeapBuf, RingBuf};
 use futures_intrusive::channel::shared::{
-    self, generic_channel, GenericReceiver, GenericSender, VerifObserver,
+    self, generic_channel, GenericReceiver, GenericSender, SharedStream, VerifObserver,
 };
 use futures_intrusive::channel::{
-    ChannelReceiveFuture, ChannelSendFuture, GenericChannel, TryReceiveError, TrySendError,
+    ChannelReceiveFuture, ChannelSendFuture, ChannelStream, GenericChannel, TryReceiveError, TrySendError,
 };
 use futures_intrusive::verif::VerifNode;
 use lock_api::RawMutex;
@@ -36,8 +37,18 @@ fn teardown_obs() -> Obs {
 macro_rules! chan_common {
     () => {
         fn observe_queues(&self, o: &mut Obs, nr: usize, ns: usize, rb: &[VerifNode], sb: &[VerifNode]) {
+            let kr = self.rf.len();
             for node in &rb[..nr] {
-                let slot = self.rf.find(node.addr, |f| f.verif_node_addr());
+                let mut slot = self.rf.find(node.addr, |f| f.verif_node_addr());
+                if slot.is_none() {
+                    for k in 0..self.streams.len() {
+                        if let Some(st) = self.streams.peek(k) {
+                            if st.verif_future_node_addr() == node.addr {
+                                slot = Some(kr - 1 - k);
+                            }
+                        }
+                    }
+                }
                 o.q.push(slot.map_or(DANGLING, |s| s as u64));
                 o.q.push(node.state as u64);
                 o.q.push(waker_code(node.waker));
@@ -56,8 +67,19 @@ macro_rules! chan_common {
                     Some(f) => f.is_terminated() as u64,
                 })
                 .chain((0..self.rf.len()).map(|i| match self.rf.peek(i) {
-                    None => 2,
+                    None => {
+                        // the receive future owned by a stream occupies the stream's slot
+                        let k = self.rf.len() - 1 - i;
+                        match self.streams.peek(k) {
+                            Some(st) if k < self.streams.len() && st.verif_future_node_addr() != 0 => 0,
+                            _ => 2,
+                        }
+                    }
                     Some(f) => f.is_terminated() as u64,
+                }))
+                .chain((0..self.streams.len()).map(|k| match self.streams.peek(k) {
+                    None => 2,
+                    Some(st) => st.is_terminated() as u64,
                 }))
                 .collect();
         }
@@ -82,6 +104,18 @@ macro_rules! chan_common {
                 None => vec![R_PANIC],
                 Some(None) => vec![R_NONE],
                 Some(Some(v)) => vec![R_SOME, v.consume(V_BACK)],
+            }
+        }
+
+        fn poll_stream(&mut self, k: usize, w: u64) -> Vec<u64> {
+            let wk = waker(w);
+            let mut cx = Context::from_waker(&wk);
+            let st = self.streams.get(k);
+            match lib(|| st.poll_next(&mut cx)) {
+                None => vec![R_PANIC],
+                Some(Poll::Pending) => vec![R_PENDING],
+                Some(Poll::Ready(None)) => vec![R_NONE],
+                Some(Poll::Ready(Some(v))) => vec![R_SOME, v.consume(V_DELIVERED)],
             }
         }
 
@@ -131,12 +165,14 @@ pub struct ChanExec<M: RawMutex + 'static, A: RingBuf<Item = Val> + 'static> {
     ch: Option<&'static GenericChannel<M, Val, A>>,
     sf: Slots<ChannelSendFuture<'static, M, Val>>,
     rf: Slots<ChannelReceiveFuture<'static, M, Val>>,
+    streams: Slots<ChannelStream<'static, M, Val, A>>,
 }
 
 impl<M: RawMutex + 'static, A: RingBuf<Item = Val> + 'static> ChanExec<M, A> {
     pub fn new(cfg: &[u64]) -> Self {
         let ch = Box::leak(Box::new(GenericChannel::<M, Val, A>::with_capacity(cfg[2] as usize)));
-        ChanExec { ch: Some(ch), sf: Slots::new(cfg[1] as usize), rf: Slots::new(cfg[0] as usize) }
+        let ns = cfg.get(5).copied().unwrap_or(0) as usize;
+        ChanExec { ch: Some(ch), sf: Slots::new(cfg[1] as usize), rf: Slots::new(cfg[0] as usize), streams: Slots::new(ns) }
     }
     chan_common!();
 
@@ -153,6 +189,7 @@ impl<M: RawMutex + 'static, A: RingBuf<Item = Val> + 'static> ChanExec<M, A> {
     fn teardown(&mut self) {
         self.sf.drop_all();
         self.rf.drop_all();
+        self.streams.drop_all();
         if let Some(ch) = self.ch.take() {
             lib(|| unsafe { drop(Box::from_raw(ch as *const _ as *mut GenericChannel<M, Val, A>)) });
         }
@@ -194,6 +231,15 @@ impl<M: RawMutex + 'static, A: RingBuf<Item = Val> + 'static> Exec for ChanExec<
             }
             [8] => o.r = try_recv_res(lib(|| ch.try_receive())),
             [9] => o.r = vec![close_res(lib(|| ch.close()))],
+            [30, k] if (*k as usize) < self.streams.len() && !self.streams.alive(*k as usize) => {
+                let st = lib(|| ch.stream()).unwrap();
+                self.streams.put(*k as usize, st);
+                o.r = vec![R_UNIT];
+            }
+            [31, k, w] if self.streams.alive(*k as usize) => o.r = self.poll_stream(*k as usize, *w),
+            [32, k] if self.streams.alive(*k as usize) => {
+                o.r = vec![if self.streams.drop_slot(*k as usize) { R_UNIT } else { R_PANIC }]
+            }
             [20] => {
                 self.teardown();
                 return teardown_obs();
@@ -221,6 +267,7 @@ pub struct SharedChanExec<M: RawMutex + 'static, A: RingBuf<Item = Val> + 'stati
     observer: Option<VerifObserver<M, Val, A>>,
     sf: Slots<shared::ChannelSendFuture<M, Val>>,
     rf: Slots<shared::ChannelReceiveFuture<M, Val>>,
+    streams: Slots<SharedStream<M, Val, A>>,
 }
 
 impl<M: RawMutex + 'static, A: RingBuf<Item = Val> + 'static> SharedChanExec<M, A> {
@@ -231,7 +278,8 @@ impl<M: RawMutex + 'static, A: RingBuf<Item = Val> + 'static> SharedChanExec<M, 
         let mut receivers = Vec::with_capacity(16);
         senders.push(s);
         receivers.push(r);
-        SharedChanExec { senders, receivers, observer, sf: Slots::new(cfg[1] as usize), rf: Slots::new(cfg[0] as usize) }
+        let ns = cfg.get(5).copied().unwrap_or(0) as usize;
+        SharedChanExec { senders, receivers, observer, sf: Slots::new(cfg[1] as usize), rf: Slots::new(cfg[0] as usize), streams: Slots::new(ns) }
     }
     chan_common!();
 
@@ -248,6 +296,7 @@ impl<M: RawMutex + 'static, A: RingBuf<Item = Val> + 'static> SharedChanExec<M, 
     fn teardown(&mut self) {
         self.sf.drop_all();
         self.rf.drop_all();
+        self.streams.drop_all();
         while let Some(s) = self.senders.pop() {
             lib(move || drop(s));
         }
@@ -307,6 +356,11 @@ impl<M: RawMutex + 'static, A: RingBuf<Item = Val> + 'static> Exec for SharedCha
                 let r = &self.receivers[0];
                 o.r = vec![close_res(lib(|| r.close()))];
             }
+            [9] if (0..self.streams.len()).any(|k| self.streams.alive(k)) => {
+                let k = (0..self.streams.len()).find(|k| self.streams.alive(*k)).unwrap();
+                let st = self.streams.peek(k).unwrap();
+                o.r = vec![close_res(lib(|| st.close()))];
+            }
             [10] if !self.senders.is_empty() => {
                 let s = &self.senders[0];
                 let c = lib(|| s.clone()).unwrap();
@@ -333,6 +387,16 @@ impl<M: RawMutex + 'static, A: RingBuf<Item = Val> + 'static> Exec for SharedCha
                 let r = self.receivers.pop().unwrap();
                 let ok = lib(move || drop(r)).is_some();
                 o.r = if !ok { vec![R_PANIC] } else { vec![rbool(!was_closed && ob.verif_state().0)] };
+            }
+            [30, k] if (*k as usize) < self.streams.len() && !self.streams.alive(*k as usize) && !self.receivers.is_empty() => {
+                let r = self.receivers.pop().unwrap();
+                let st = lib(move || r.into_stream()).unwrap();
+                self.streams.put(*k as usize, st);
+                o.r = vec![R_UNIT];
+            }
+            [31, k, w] if self.streams.alive(*k as usize) => o.r = self.poll_stream(*k as usize, *w),
+            [32, k] if self.streams.alive(*k as usize) => {
+                o.r = vec![if self.streams.drop_slot(*k as usize) { R_UNIT } else { R_PANIC }]
             }
             [20] => {
                 self.teardown();
